@@ -106,6 +106,11 @@ def gen_history(r):
                 else:
                     tags.append(["p", t["pubkey"]])
                     tags.append(["a", "%d:%s:x" % (t["kind"], t["pubkey"])])
+            if r.random() < 0.04:
+                # a client that deletes its whole history in one go: thousands of references, most of them unknown here
+                filler = [["e", ref.compute_id("00" * 32, 1, 1, [], "bulk%d-%d" % (i, j))] for j in range(r.choice([2001, 2100, 2500]))]
+                at = r.randrange(len(filler))
+                tags = filler[:at] + tags + filler[at:]
             ts = gen.T0 + r.choice([0, 1, 5, 10, 10, 20, 30])
             d = ref.make_event(k, kind=5, created_at=ts, tags=tags, content="del%d" % i)
             evs.append(d)
